@@ -116,6 +116,37 @@ def run(ctx):
         ok = any(c.split("::")[-1] == "collect" for c in o.callees()) and any(c.split("::")[-1] == "map" for c in o.callees())
     ctx.ob("R1", "replace-branch-appends-nothing", ok, "in -I mode exactly one Command::args call may happen and it must pass the rebuilt initial arguments (found %d call(s): %s)" % (len(in_replace), desc), fn=ex, how="dominating guard + provenance")
 
+    # the built-in echo (no command given) is a command like any other: in -I mode nothing is appended to it
+    adt = prog.adts.get(X + "ExecAction")
+    echo_idx = [v["idx"] for v in adt["variants"] if v["name"] == "Echo"] if adt else []
+    reads = prim.field_reads_in(ex, "extra_args")
+    n_echo = 0
+    if echo_idx:
+        for b, s in reads:
+            atoms = prim.norm_guards(prim.dominating_guards(ex, b))
+            in_echo = prim.atom_holds(atoms, "eq", lambda x: x.strip().k == "discr" and any(y.k == "field" and y.a == "action" for y in x.walk()), lambda x: x.strip().k == "const" and x.strip().a.get("v") == echo_idx[0]) is not None
+            if not in_echo:
+                continue
+            n_echo += 1
+            is_repl = lambda x: any(y.k == "field" and y.a == "replace" for y in x.walk())
+            T = lambda v: (lambda x: x.strip().k == "const" and x.strip().a.get("v") is v or (v is not True and x.strip().k == "const" and x.strip().a.get("v") == v))
+            none = None
+            for at in atoms:
+                a_ = at["a"].strip()
+                if not is_repl(a_):
+                    continue
+                bv = at["b"].strip().a.get("v") if at["b"].strip().k == "const" else None
+                if a_.k == "call" and a_.a["name"] == "is_some" and ((at["rel"] == "ne" and bv is True) or (at["rel"] == "eq" and bv is False)):
+                    none = at
+                if a_.k == "call" and a_.a["name"] == "is_none" and ((at["rel"] == "eq" and bv is True) or (at["rel"] == "ne" and bv is False)):
+                    none = at
+                if a_.k == "discr" and ((at["rel"] == "eq" and bv == 0) or (at["rel"] == "ne" and bv == 1)) and bv is not True and bv is not False:
+                    none = at
+            ctx.ob("R1", "echo-appends-nothing-in-replace-mode", none is not None,
+                   "the built-in echo reads the appended arguments under %s; in -I mode the line replaces R in the initial arguments and nothing is appended — the default command has no initial arguments, so `printf 'a\\n' | xargs -I{}` prints an empty line, not the line"
+                   % prim.guards_fmt(prim.dominating_guards(ex, b))[:200], fn=ex, where=prim.site(ex, b, s), how="field reads in the Echo arm + dominating guards (normal form)")
+    ctx.floor("R1", "reads of the appended arguments in the built-in echo", n_echo, 1)
+
     # ---- R3 empty input ---------------------------------------------------------------------------
     def role(t):
         n = t.j.get("callee_name")
@@ -370,6 +401,32 @@ def _positions_recorded(ctx, no):
                "option %r takes %s value(s)%s; an occurrence without a value records no index, so 'the option given last' cannot see it (`-n2 -i` then lets -n win)" % (ids[0], desc, ", with a default-missing value" if "default_missing_value" in names else ""),
                fn=dx, where=prim.site(dx, b), how="builder chain (contract C1: clap indices are per value)")
     ctx.floor("R2", "ranked options with a builder chain", n, 4)
+    # contract C2: clap refuses a second occurrence of a Set/SetTrue option ("cannot be used multiple times") unless the
+    # command was built with args_override_self(true) (or the argument overrides itself)
+    gm = [(b, t) for b, t in dx.calls() if (t.callee or "").startswith("clap::Command::") and "get_matches" in (t.callee or "")]
+    okr = False
+    desc = "no get_matches call found"
+    if len(gm) == 1:
+        o = prim.origin_of_operand(dx, gm[0][1].args[0])
+        # (the builder chain is longer than the provenance depth: the one Command::new of do_xargs, configured in a block
+        # that dominates the parse)
+        news = [b_ for b_, t_ in dx.calls() if t_.callee == "clap::Command::new"]
+        ovs = [(b_, t_) for b_, t_ in dx.calls() if t_.callee == "clap::Command::args_override_self"]
+        okr = len(news) == 1 and len(ovs) == 1 and dx.dominates(ovs[0][0], gm[0][0]) and dx.dominates(news[0], ovs[0][0]) and \
+            (lambda v: v.k == "const" and v.a.get("v") is True)(prim.origin_of_operand(dx, ovs[0][1].args[1]).strip()) and \
+            any(cn.a["name"] == "new" and cn.a["callee"].startswith("clap::Command") for cn in prim.origin_of_operand(dx, ovs[0][1].args[0]).call_nodes())
+        desc = "args_override_self(%s)" % (prim.origin_of_operand(dx, ovs[0][1].args[1]).fmt() if ovs else "absent")
+        if not okr:
+            # every ranked argument overriding itself is the other way
+            per_arg = []
+            for cn in o.call_nodes():
+                if cn.a["name"] == "arg" and len(cn.kids) >= 2:
+                    names = [x.a["name"] for x in cn.kids[1].call_nodes()]
+                    per_arg.append("overrides_with_self" in names or "overrides_with" in names or any(isinstance(cs.get("v"), str) and cs.get("v") in ("Append", "Count") for cs in cn.kids[1].consts()))
+            okr = bool(per_arg) and all(per_arg)
+    ctx.ob("R2", "an-option-may-be-repeated", okr,
+           "the command line is parsed by a clap::Command built with %s; without it clap rejects `-n 2 -n 1` or `-I{} -n 2 -I{}` (\"cannot be used multiple times\") although the last of the conflicting options — a repetition included — must simply win"
+           % desc, fn=dx, where=prim.site(dx, gm[0][0]) if gm else None, how="builder chain of the parsed command (contract C2)")
 
 
 def _sim_until_out(edges, asg):
